@@ -24,6 +24,10 @@ CHECKS = {
             "DESIGN.md §3 C07",
             "All (B,E,L) with B<=64, E<=24, L<=4000 (quick: 32/12/1500) and a full boundary grid up to B=2^32-1, E=65535, L=2^48-1 are evaluated on the real block_partitioning and block_length (every sbn) against a u128 reference; the B that the real EXT_FTI parser reconstructs from RaptorQ/Raptor (F,Z,T) is partitioned and compared; a real No-Code sender's (SBN,ESI) structure is compared on a small grid. Overflow checks and debug assertions are on.",
             "Trusted: the 128-bit reference written from RFC 5052 section 9.1; random triples are not used."),
+    "C06": ("exploration", "exhaustive finite grids of packets: flute's encoder against an independent RFC decoder and an independent RFC encoder against flute's parser", "gridx",
+            "DESIGN.md §3 C06 + appendix A",
+            "Encode direction: the full product of CCI/TSI/TOI width classes (min, max, pattern per class) x close flag x 6 codepoints x 8 extension sets, plus per-scheme EXT_FTI boundary values, payload-id ranges, SCT instants from 1970 to the NTP era end, FDT ids and versions, built by flute's packet builder and decoded field by field by rfc.rs and by flute itself. Decode direction: rfc.rs packets over every (C,S,O,H) combination, flags, extension orders with unknown variable-length (HEL 1..200) and fixed-length extensions at every position, FTI / payload-id / SCT boundary values, parsed by flute.",
+            "Trusted: rfc.rs (written from the RFC texts, appendix A of DESIGN.md). Values inside a width class are the class bounds and one pattern, not every value."),
 }
 
 NOT_YET = {}
